@@ -639,10 +639,11 @@ func terminateOrphanedInstances(n *NodeGroup, instances []*string) {
 	}
 	log.WithField("asg", n.id).Infof("terminating %v instance(s) that could not be attached to the ASG", numInstances)
 
-	var instanceIds []string
 	for i := 0; i < numInstances; i += terminateBatchSize {
 		batch := instances[i:minInt(i+terminateBatchSize, numInstances)]
 
+		// each call carries only its own batch: the API accepts at most terminateBatchSize ids
+		var instanceIds []string
 		for _, id := range batch {
 			instanceIds = append(instanceIds, *id)
 		}
